@@ -920,7 +920,76 @@ def impl_vec_line(line):
     return r[3:] if r.startswith('OK ') else r
 
 
+# ---- text fields ----
+def show_comp(k, v):
+    return '%s:%s' % (k.encode('ascii').hex(), '-' if v is None else 'v' + v.encode('ascii').hex())
+
+
+def show_comps(d):
+    return '[' + ','.join(show_comp(k, v) for k, v in d.items()) + ']'
+
+
+def nvl_cmd(sep, h):
+    from cryptoparser.common.field import NameValuePairListCommaSeparated, NameValuePairListSemicolonSeparated
+    cls = {'3b': NameValuePairListSemicolonSeparated, '2c': NameValuePairListCommaSeparated}[sep]
+    return show_comps(cls.parse_exact_size(bytes.fromhex('' if h == '-' else h)).value)
+
+
+class RawComponent(object):
+    def __init__(self, raw):
+        self.raw = bytes(raw)
+
+
+def component_proxy(real):
+    """The real component class's name matching, with the value parser replaced by a recorder."""
+    return type('Proxy' + real.__name__, (object,), {
+        '_check_name': staticmethod(real._check_name),  # pylint: disable=protected-access
+        'get_canonical_name': staticmethod(real.get_canonical_name),
+        'parse_exact_size': staticmethod(RawComponent),
+    })
+
+
+def field_class(name):
+    import cryptoparser.dnsrec.txt
+    import cryptoparser.httpx.header
+    for m in (cryptoparser.httpx.header, cryptoparser.dnsrec.txt):
+        if hasattr(m, name):
+            return getattr(m, name)
+    raise KeyError(name)
+
+
+def fvm_cmd(clsname, h):
+    import collections
+    import attr
+    cls = field_class(clsname)
+    fields = attr.fields_dict(cls)
+    basic = collections.OrderedDict((n, a) for n, a in fields.items() if not a.metadata.get('extension', False))
+    real = cls._get_attr_to_validator_type_dict(fields)  # pylint: disable=protected-access
+    proxies = collections.OrderedDict(
+        (n, component_proxy(c) if n in basic else c) for n, c in real.items())
+    components = cls._get_header_value_list_class().parse_exact_size(  # pylint: disable=protected-access
+        bytes.fromhex('' if h == '-' else h)).value
+    params = {}
+    cls._parse_basic_params(proxies, basic, components, params)  # pylint: disable=protected-access
+    shown = []
+    for n in basic:
+        v = params[n]
+        shown.append('r' + v.raw.hex() if isinstance(v, RawComponent) else '-')
+    return '[' + ','.join(shown) + '] ' + show_comps(components)
+
+
+def hline_cmd(strict, h):
+    from cryptoparser.httpx.header import HttpHeaderFieldUnparsed, HttpHeaderFieldServer
+    data = bytes.fromhex('' if h == '-' else h)
+    if strict == '1':
+        obj, n = HttpHeaderFieldServer._parse(data)  # pylint: disable=protected-access
+        return '%s %s n=%d' % (data[:data.index(b':')].hex(), obj.value.value.encode('ascii').hex(), n)
+    obj, n = HttpHeaderFieldUnparsed._parse(data)  # pylint: disable=protected-access
+    return '%s %s n=%d' % (obj.name.encode('ascii').hex(), obj.value.encode('ascii').hex(), n)
+
+
 COMMANDS = {
+    'nvl': nvl_cmd, 'fvm': fvm_cmd, 'hline': hline_cmd,
     'tpktenc': tpkt_enc, 'cotpenc': cotp_enc, 'pcotp': p_cotp, 'rdpnegenc': rdp_neg_enc, 'mysqlpktenc': mysql_pkt_enc,
     'mysqlssl41': mysql_ssl41, 'mysqlssl320': mysql_ssl320, 'ovpnctl': ovpn_ctl, 'ovpntcp': ovpn_tcp, 'pgssl': pg_ssl,
     'sshpad': ssh_pad, 'mpintspec': mpint_spec, 'kexenc': kex_enc, 'kexdec': kex_dec,
